@@ -2,7 +2,7 @@
 import re
 
 from analysis import (flow_key, Prov, Guards, fmt, fmt_short, walk, roots, short, comparison, find_calls, callee_matches,
-                      must_pass, const_int_of, writes_into, _lin_add)
+                      must_pass, const_int_of, writes_into, _lin_add, canon, slice_span, normalised_cmp, cmp_intervals)
 from aff import Aff, Fact
 from facts import AnchorError, strip_closure
 from harness import Rule, guarded
@@ -69,7 +69,37 @@ def r1_r2(ctx):
     pid_e = eq_edges(lambda x, y: x.endswith("protocol_identity.protocol_id") or y.endswith("protocol_identity.protocol_id"))
     ver_e = eq_edges(lambda x, y: x.endswith("protocol_identity.protocol_version") or y.endswith("protocol_identity.protocol_version"))
     sz_e = []
+    # the same guard in any arithmetic spelling: with size = the declared auth-data size and rest = len(data) - 39, the datagram is accepted only
+    # where size <= rest (`size > data[39..].len()`, `39 + size > data.len()`, `data.len() - 39 < size`, ..)
+    def sz_atom(x):
+        x = canon(x)
+        y = x
+        while y[0] == "cast":
+            y = canon(y[1])
+        if y[0] == "call" and re.search(r"from_be_bytes$|From>?::from$|Into>?::into$", short(y[1])) and "from_be_bytes" in fmt_short(y) and \
+                not any(z[0] == "bin" for z in walk(y) if isinstance(z, tuple) and z and z is not y and z[0] == "bin" and "WithOverflow" in str(z[1]) and "from_be_bytes" in fmt_short(z)):
+            return "size"
+        if (x[0] == "call" and re.search(r"::len$", short(x[1])) and x[2]) or (x[0] == "un" and x[1] == "PtrMetadata"):
+            base, st, en = slice_span(x[2][0] if x[0] == "call" else x[2])
+            if canon(base) == ("param", 3, b.local_name(3) or "data") and en is None and st is not None and not st[0]:
+                return ({"len": 1}, -st[1])
+        return None
     for bi, t, e in g.switches():
+        nc = normalised_cmp(e, sz_atom)
+        if nc and set(nc[0]) == {"size", "len"} and nc[0]["size"] == -nc[0]["len"] and abs(nc[0]["size"]) == 1 and nc[2] not in ("==", "!="):
+            # x = size - len + k' ...: accepted where size - (len - 39) <= 0
+            sgn = nc[0]["size"]
+            ivs = cmp_intervals(sgn, nc[1] - sgn * 39 + sgn * 39, nc[2])
+            # normalise to y = size - len + 39: nc says sgn*size - sgn*len + k op 0 ; y = size - len + 39 => sgn*y + (k - sgn*39) op 0
+            ivs = cmp_intervals(sgn, nc[1] - sgn * 39, nc[2])
+            f, tr = g.bool_edges(bi)
+            if ivs is not None:
+                (lo_t, hi_t), (lo_f, hi_f) = ivs
+                if hi_t is not None and hi_t <= 0 and lo_f is not None and lo_f >= 1 and (bi, tr) not in sz_e:
+                    sz_e.append((bi, tr))
+                elif hi_f is not None and hi_f <= 0 and lo_t is not None and lo_t >= 1 and (bi, f) not in sz_e:
+                    sz_e.append((bi, f))
+    for bi, t, e in ():
         c = comparison(e)
         if c and c[0] in (">", "<=", "<", ">=") and "from_be_bytes" in fmt_short(c[1]) + fmt_short(c[2]) and "Vec::len" in fmt_short(c[1]) + fmt_short(c[2]):
             f, tr = g.bool_edges(bi)
@@ -333,7 +363,9 @@ def r3(ctx):
     rule.check(fixed == {"Message": 32, "WhoAreYou": 24, "Handshake": 34}, "fixed auth-data prefix written per kind %s == sizes the reader requires (32, 24, 34)" % fixed,
                "auth-data|prefix", "PacketKind::encode writes fixed prefixes %s but PacketKind::decode requires 32 / 24 / 34" % fixed, loc=ke.loc(ke.line))
     # (d) header cipher
-    eh = facts.one(re.escape(P + "Packet::encrypt_header"))
+    # the function that masks the header on the sending side: Packet::encrypt_header, or Packet::encode itself when the masking was moved
+    # into it (or into a helper that was inlined into it)
+    eh = facts.bodies.get(P + "Packet::encrypt_header") or facts.one(re.escape(P + "Packet::encode") + "$")
     rule.analysed(eh)
     ep = Prov(eh, facts)
     ciph = {}
